@@ -166,7 +166,7 @@ example : ∃ r : ℝ × T3 ℂ, NormContract exK.cnorm ∧ LocalFits (ones111 :
     LocalHermitian (ones111 : T3 ℂ) ones111 exW exA.d0 exA.d1 exA.d2 ∧
     C15.EighAt (localHFun (ones111 : T3 ℂ) ones111 exW exA.d0 exA.d1 exA.d2) exK.cnorm exK.deigh (flat3 exA) 1 ∧
     minimizeLocalEnergy exK ones111 ones111 exW exA 1 = .ok r := by
-  obtain ⟨r, h⟩ := minimize_ok_one (k := exK) rfl (L := ones111) (R := ones111) (W := exW) exA_pos
+  obtain ⟨r, h⟩ := minimize_ok_one (k := exK) rfl (L := ones111) (R := ones111) (W := exW) sqrtNorm_contract exA_pos
   exact ⟨r, sqrtNorm_contract, exLocal_fits, exLocal_herm, eighAt_one _ _ _, h⟩
 
 /-- hypotheses of `local_of_blocks`: blocks of `exψC` with the Hermitian MPO `exOC` exist -/
